@@ -50,3 +50,33 @@ Theorem C06_sharded_preload : forall size lg, permitted size lg ->
           fst (shard_length fault root) = Ok (N.of_nat (length entries)) /\ Permutation (snd (shard_length fault root)) shards).
 Proof. exact sharded_length_under_faults. Qed.
 Print Assumptions C06_sharded_preload.
+
+(* the same for a sharded directory the REFERENCE implementation wrote after any history of Sets and Removes (Hamt/RefModel.v) *)
+From UV Require Import Hamt.RefModel Hamt.RefHistory.
+Theorem C06_reference_shard_preload : forall size lg, permitted size lg ->
+  forall H : bytes -> bytes, (forall k, wf_bytes (H k) = true) -> (forall k, length (H k) = 8%nat) ->
+  forall fuel ops t, Forall (hop_ok H) ops -> hrun lg fuel ops = Ok t ->
+  let root := fst (serialize_node size HashMurmur3 (pad_len size) (BShard t)) in
+  exists shards : list blk,
+    Forall (fun x => exists sh, mk_shard_of x = Ok sh) shards /\
+    forall fault,
+      incl (snd (shard_length fault root)) shards
+      /\ (forall m, fst (shard_length fault root) = Ok m -> Forall (fun t => fault t = None) shards)
+      /\ (Forall (fun t => fault t = None) shards ->
+          fst (shard_length fault root) = Ok (N.of_nat (length (mrun ops))) /\ Permutation (snd (shard_length fault root)) shards).
+Proof. exact ref_history_length_under_faults. Qed.
+Print Assumptions C06_reference_shard_preload.
+
+(* reference-written files in the trickle layout (File/Trickle.v; raw leaves, no empty chunk): preloading requests exactly the
+   file's blocks, or fails *)
+From UV Require Import File.Builder File.BuilderProofs File.BuilderProofs3 File.Trickle File.TrickleProofs.
+Theorem C06_reference_trickle_preload : forall (W : nat) (chunks : list bytes), (1 <= W)%nat -> chunks <> [] -> Forall nonempty chunks -> (blen (concat chunks) < bound63)%N ->
+  let b := fst (trickle_layout W chunks) in
+  forall fault,
+  let '(_, loads, st) := drain_all (stream fault b 0) [] [] in
+  (Forall (fun x => fault x = None) (tl (preorder b)) -> st = StEOF /\ loads = tl (preorder b))
+  /\ ((exists x, In x (tl (preorder b)) /\ fault x <> None) -> exists e, st = StErr e).
+Proof.
+  intros W chunks HW Hne Hs Hb b fault. destruct (trickle_qualifies W chunks HW Hne Hs Hb) as [H1 H2]. exact (preload_file fault b H1 H2).
+Qed.
+Print Assumptions C06_reference_trickle_preload.
